@@ -38,6 +38,7 @@ Gadget(t) == [k |-> "b", w |-> t.w, o |-> OpAdd, a |-> <<t, [k |-> "c", w |-> 1,
 
 Judge(ev, st) ==
     IF ev.panic # "" THEN Fail("panic", "no panic", ev.panic, <<>>)
+    ELSE IF ev.retmut # "" THEN Fail("retmut", "results handed out earlier stay what they were", ev.retmut, <<>>)
     ELSE IF ~WellFormed(ev.onodes) THEN Fail("illformed", "well-formed", "ill-formed", <<>>)
     ELSE CASE ev.op = "equal" ->
               IF ev.res = (ev.a = ev.b) THEN Pass(<<>>) ELSE Fail("equal", ev.a = ev.b, ev.res, <<>>)
@@ -51,6 +52,10 @@ Judge(ev, st) ==
                 ELSE Pass(<<>>))
            [] ev.op = "exprs" ->
               Let1(IF ev.eff.e = "mem" THEN <<ev.eff.a, ev.eff.v>> ELSE <<ev.eff.v>>, LAMBDA exp :
+                IF ev.found = exp THEN Pass(<<>>) ELSE Fail("exprs", exp, ev.found, <<>>))
+           [] ev.op = "exprsmany" ->
+              Let1(FoldLeft(LAMBDA acc, i : acc \o (IF ev.effs[i].e = "mem" THEN <<ev.effs[i].a, ev.effs[i].v>> ELSE <<ev.effs[i].v>>),
+                            <<>>, [i \in 1..Len(ev.effs) |-> i]), LAMBDA exp :
                 IF ev.found = exp THEN Pass(<<>>) ELSE Fail("exprs", exp, ev.found, <<>>))
            [] ev.op = "effapply" ->
               IF ev.outeff.e # ev.eff.e \/ ev.outeff.n # ev.eff.n \/ ev.outeff.w # ev.eff.w
